@@ -107,6 +107,10 @@ class AsmPasses:
                 else:
                     lines = [" ORG $1000\n", "T NOP\n"] + fill + [src, " ORG $4000\n", " NOP\n"]
                     si, ti = 3, 1
+            if h.get("probe_fill") == "pcrnear":
+                kk = h.get("probe_k", 3)
+                lines = ["T NOP\n", " RMB %d\n" % nfill] + [" LDA N,PCR\n"] * kk + [src, "N NOP\n"]
+                si, ti = kk + 2, 0
             if h.get("probe_fill") == "pcrfar":
                 kk = h.get("probe_k", 3)
                 lines = [src] + [" LEAY FAR,PCR\n"] * kk + [" RMB %d\n" % nfill, "T NOP\n", " RMB 200\n", "FAR NOP\n"]
@@ -122,7 +126,8 @@ class AsmPasses:
                 (st.address + len(st.bytes) + d.offset - run.stmts[ti].address) % 65536 == 0
             clause = (KEY + "determine_pcr_relative_sizes::post:fits8-%s" % ("forward" if direction == "fwd" else "backward")) \
                 if k == "sizes" else KEY + "probe:pcr-target"
-            env.ensure(clause, ok, ("C03", "C01"), lambda: "probe:%s:%s:%s%s:n=%d:%s" % (m, direction, h.get("probe_fill", "rmb"), h.get("probe_k", ""), nfill, d.kind if d.ok else "undecodable"))
+            env.ensure(clause, ok, ("C03", "C01"), lambda: "probe:%s:%s:%s%s:n=%d:at=%d:%s" % (m, direction, h.get("probe_fill", "rmb"), h.get("probe_k", ""), nfill,
+                                                                         st.address - run.stmts[ti].address, d.kind if d.ok else "undecodable"))
         else:
             env.ensure(KEY + "native-replay-not-implemented", True, ())
 
@@ -145,6 +150,12 @@ class AsmPasses:
                     for cnt in (1, 3, 5):
                         for nfill in range(127 - 4 * cnt - 1, 127 - 3 * cnt + 2):
                             yield {"probe_n": nfill, "probe_dir": direction, "probe_fill": "pcrfar", "probe_k": cnt}
+                if cell["k"] == "sizes" and direction == "bwd":
+                    # other PCR references to a NEAR label inside the span (8-bit in the end): the order in which the statements are
+                    # sized decides whether this one sees their final or their pessimistic size
+                    for cnt, lo, hi in ((3, 110, 120), (10, 80, 100)):
+                        for nfill in range(lo, hi + 1):
+                            yield {"probe_n": nfill, "probe_dir": direction, "probe_fill": "pcrnear", "probe_k": cnt}
                 if cell["k"] == "sizes":
                     # fillers whose size exceeds their max_size (constant-offset indexed statements: 3 bytes each)
                     for cnt in (10, 30, 41, 42, 43, 50, 60, 100):
